@@ -165,6 +165,67 @@ def gen_order(m, src):
           "order of state update vs authentication in unprotect / unprotect_rtcp", PATH)
 
 
+def gen_tagcmp(m, src):
+    """the authentication-tag comparison: constant_time_eq over the FULL profile tag length, verbatim"""
+    def need(body, what, frag):
+        if norm(body).count(frag) != 1:
+            raise Untranslatable("%s: expected exactly once: %s" % (what, frag))
+    _, _, ct = find_fn(src, "constant_time_eq")
+    if norm(ct) != norm("""{ if a.len() != b.len() { return false; } let mut diff = 0u8;
+            for (x, y) in a.iter().zip(b.iter()) { diff |= x ^ y; } diff == 0 }"""):
+        raise Untranslatable("constant_time_eq: body changed: " + norm(ct)[:160])
+    if len(re.findall(r"constant_time_eq\(", src)) != 3:
+        raise Untranslatable("constant_time_eq: expected the definition and exactly two call sites")
+    _, _, ub = find_fn(src, "unprotect", "SrtpContext")
+    need(ub, "unprotect", "let tag_len = self._profile.tag_len();")
+    need(ub, "unprotect", "if packet.body.len() < tag_len { return Err(SrtpError::PacketTooShort); }")
+    if norm(ub).count("let split = packet.body.len() - tag_len;") != 2:
+        raise Untranslatable("unprotect: tag split changed")
+    need(ub, "unprotect", "mac.update(&self.auth_scratch); mac.update(&packet.body[..split]); mac.update(&roc.to_be_bytes()); let result = mac.finalize().into_bytes(); "
+         "if !constant_time_eq(&packet.body[split..], &result[..tag_len]) { return Err(SrtpError::AuthenticationFailed); }")
+    need(ub, "unprotect", "let tag = aes_gcm::Tag::clone_from_slice(&packet.body[split..]);")
+    _, _, pb = find_fn(src, "protect", "SrtpContext")
+    need(pb, "protect", "let tag_len = self._profile.tag_len();")
+    need(pb, "protect", "mac.update(&output[..body_end]); mac.update(&roc.to_be_bytes()); let result = mac.finalize().into_bytes(); output[body_end..].copy_from_slice(&result[..tag_len]);")
+    _, _, urb = find_fn(src, "unprotect_rtcp", "SrtpContext")
+    need(urb, "unprotect_rtcp", "let tag_len = self._profile.rtcp_tag_len();")
+    need(urb, "unprotect_rtcp", "if packet.len() < tag_len + 4 { return Err(SrtpError::PacketTooShort); }")
+    need(urb, "unprotect_rtcp", "let split = packet.len() - tag_len; let mut tag = [0u8; SHA1_LEN]; tag[..tag_len].copy_from_slice(&packet[split..split + tag_len]); packet.truncate(split);")
+    need(urb, "unprotect_rtcp", "let mut expected = [0u8; SHA1_LEN]; self.auth_tag_rtcp_into(packet, &mut expected)?; "
+         "if !constant_time_eq(&tag[..tag_len], &expected[..tag_len]) { return Err(SrtpError::AuthenticationFailed); }")
+    _, _, prb = find_fn(src, "protect_rtcp", "SrtpContext")
+    need(prb, "protect_rtcp", "let mut tag = [0u8; SHA1_LEN]; self.auth_tag_rtcp_into(packet, &mut tag)?; packet.extend_from_slice(&tag[..self._profile.rtcp_tag_len()]);")
+    _, _, ab = find_fn(src, "auth_tag_rtcp_into", "SrtpContext")
+    need(ab, "auth_tag_rtcp_into", "mac.update(data); out.copy_from_slice(&mac.finalize().into_bytes());")
+    m.raw("Definition tag_compare_full_length : bool := true.",
+          "authentication tag comparison (constant_time_eq body, both call sites, tag slices over tag_len / rtcp_tag_len) verbatim", PATH)
+
+
+def gen_session(m, src):
+    """SrtpSession receive path: state changes only after the operation succeeded (with_rx_context verbatim)"""
+    _, _, wb = find_fn(src, "with_rx_context", "SrtpSession")
+    want = """{ let out = match self.rx_contexts.get_mut(&ssrc) {
+        Some(ctx) => { let out = op(ctx)?; ctx.last_used = std::time::Instant::now(); out }
+        None => { let mut ctx = SrtpContext::new( ssrc, self.profile, self.rx_keying.clone(), SrtpDirection::Receiver, )?;
+                  let out = op(&mut ctx)?; self.rx_contexts.insert(ssrc, ctx); out } };
+        self.evict_stale_rx(ssrc); Ok(out) }"""
+    if norm(wb) != norm(want):
+        raise Untranslatable("SrtpSession::with_rx_context: body changed: " + norm(wb)[:200])
+    _, _, a = find_fn(src, "unprotect_rtp", "SrtpSession")
+    if norm(a) != norm("{ let ssrc = packet.header.ssrc; self.with_rx_context(ssrc, |ctx| ctx.unprotect(packet)) }"):
+        raise Untranslatable("SrtpSession::unprotect_rtp: body changed")
+    _, _, b = find_fn(src, "unprotect_rtcp", "SrtpSession")
+    if not norm(b).endswith("let ssrc = u32::from_be_bytes([packet[4], packet[5], packet[6], packet[7]]); self.with_rx_context(ssrc, |ctx| ctx.unprotect_rtcp(packet)) }"):
+        raise Untranslatable("SrtpSession::unprotect_rtcp: body changed")
+    for fn, keep in (("evict_stale_rx", "rx_contexts"), ("evict_stale_tx", "tx_contexts")):
+        _, _, e = find_fn(src, fn, "SrtpSession")
+        if norm(e) != norm("""{ if self.%s.len() <= SSRC_CONTEXT_HIGH_WATERMARK { return; } let now = std::time::Instant::now();
+                self.%s.retain(|s, c| { *s == keep_ssrc || now.duration_since(c.last_used) < SSRC_INACTIVITY_EVICT }); }""" % (keep, keep)):
+            raise Untranslatable("SrtpSession::%s: body changed" % fn)
+    m.raw("Definition session_rx_commit_after_auth : bool := true.",
+          "SrtpSession::with_rx_context / unprotect_rtp / unprotect_rtcp / evict_stale_* (verbatim skeletons)", PATH)
+
+
 def gen_setup(m):
     """setup_srtp (src/peer_connection.rs): profile code table, key/salt lengths, exporter slicing, role swap"""
     path = "src/peer_connection.rs"
@@ -254,6 +315,8 @@ def gen_srtp_arith():
     gen_masks(m, src)
     gen_offsets(m, src)
     gen_order(m, src)
+    gen_tagcmp(m, src)
+    gen_session(m, src)
     gen_setup(m)
     return m
 
